@@ -65,6 +65,17 @@ def writers(cfg, crate, rep):
     # from_name builds through push only (no direct field access): covered by `mutators`
 
 
+def map_type(crate):
+    """the keyed map behind `entries`: std HashMap or BTreeMap (same by-key semantics: contains_key / get / insert /
+    remove / entry; the key's Hash+Eq resp. Ord+Eq must be the derived, mutually consistent ones)"""
+    a = crate.adts.get(DN) or {}
+    for v in a.get("variants") or []:
+        for f in v.get("fields") or []:
+            if f.get("name") == "entries":
+                return "std::collections::BTreeMap" if "BTreeMap<" in (f.get("ty") or "") else "std::collections::HashMap"
+    return "std::collections::HashMap"
+
+
 def push(cfg, crate, rep):
     fn = "DistinguishedName::push"
     rep.fn(fn)
@@ -85,15 +96,15 @@ def push(cfg, crate, rep):
     if len(app) == 1:
         t, k, p, n, c = app[0]
         ok_m = k.endswith("Vec::push") and places(p[0]) == {"ty"} and not [r for r in roots(p[0]) if r.startswith("op:")]
-        want = Not(atom("opaque", "std::collections::HashMap::contains_key(self.entries, ty)"))
-        alt = [Not(atom("some", "std::collections::HashMap::get(self.entries, ty)"))]
+        want = Not(atom("opaque", map_type(crate) + "::contains_key(self.entries, ty)"))
+        alt = [Not(atom("some", map_type(crate) + "::get(self.entries, ty)"))]
         ok_c = any(not F.counterexamples(c, w, "equiv") for w in [want] + alt)
         rep.ob("C20.push", key + "|append-iff-absent", ok_m and ok_c, "the key is appended to `order` exactly when it is absent from `entries` (otherwise duplicates appear / re-insertion moves nothing)", expected=F.show(want), found="%s(%s) when %s" % (k, core(p[0]).r(), F.show(c)), sp=n.get("sp"))
     else:
         rep.fail("C20.push", key + "|append-iff-absent", "no single append to `order`", found=len(app))
     if len(ins) == 1:
         t, k, p, n, c = ins[0]
-        ok = k.endswith("HashMap::insert") and c is True and core(p[0]).r() == "ty" and places(p[1]) == {"s"}
+        ok = k.endswith(("HashMap::insert", "BTreeMap::insert")) and c is True and core(p[0]).r() == "ty" and places(p[1]) == {"s"}
         rep.ob("C20.push", key + "|insert-unconditional", ok, "the value is stored under the same key unconditionally (most recent value wins)", found="%s(%s, %s) when %s" % (k, core(p[0]).r(), core(p[1]).r(), F.show(c)), sp=n.get("sp"))
     else:
         rep.fail("C20.push", key + "|insert-unconditional", "no single insert into `entries`", found=len(ins))
@@ -113,8 +124,8 @@ def remove(cfg, crate, rep):
     m = [(t, k, p, n, c) for t, k, p, n, f, c in I.muts if f == fn]
     rm = [x for x in m if core(x[0]).r() == "self.entries"]
     rt = [x for x in m if core(x[0]).r() == "self.order"]
-    present = atom("some", "std::collections::HashMap::remove(self.entries, ty)")
-    ok = len(rm) == 1 and rm[0][1].endswith("HashMap::remove") and rm[0][4] is True and core(rm[0][2][0]).r() == "ty"
+    present = atom("some", map_type(crate) + "::remove(self.entries, ty)")
+    ok = len(rm) == 1 and rm[0][1].endswith(("HashMap::remove", "BTreeMap::remove")) and rm[0][4] is True and core(rm[0][2][0]).r() == "ty"
     rep.ob("C20.remove", key + "|map-remove", ok, "the key is removed from `entries` unconditionally", found=[(x[1], F.show(x[4])) for x in rm])
     if len(rt) == 1:
         t, k, p, n, c = rt[0]
@@ -153,7 +164,7 @@ def iteration(cfg, crate, rep):
         v = core(vv)
         txt = v.r()
         # the lookup by key: HashMap::get on the same name's `entries`, directly or through DistinguishedName::get
-        gets = [(c, a) for c, a, n_, cnd, f in I2.calls if (c.endswith("HashMap::get") and core(a[0]).r() == "self.distinguished_name.entries")
+        gets = [(c, a) for c, a, n_, cnd, f in I2.calls if (c.endswith(("HashMap::get", "BTreeMap::get")) and core(a[0]).r() == "self.distinguished_name.entries")
                 or (c == "DistinguishedName::get" and core(a[0]).r() == "self.distinguished_name")]
         nexts = [(c, a) for c, a, n_, cnd, f in I2.calls if c.endswith("::next") and places(a[0]) == {"self.iter"}]
         ok = len(gets) == 1 and places(gets[0][1][1]) == {"self.iter"} \
@@ -163,7 +174,7 @@ def iteration(cfg, crate, rep):
     else:
         rep.fail("C20.iter", "%s|next" % cfg, "iterator impl not found")
     v = core(Interp(crate).run_fn("DistinguishedName::get")["value"])
-    rep.ob("C20.iter", "%s|get" % cfg, isinstance(v, CallV) and v.callee.endswith("HashMap::get") and core(v.args[0]).r() == "self.entries" and core(v.args[1]).r() == "ty", "get() reads `entries`", found=v.r())
+    rep.ob("C20.iter", "%s|get" % cfg, isinstance(v, CallV) and v.callee.endswith(("HashMap::get", "BTreeMap::get")) and core(v.args[0]).r() == "self.entries" and core(v.args[1]).r() == "ty", "get() reads `entries`", found=v.r())
     # the Name writer consumes iter()
     import schema as S_
     Iw = Interp(crate)
@@ -188,7 +199,7 @@ def iteration(cfg, crate, rep):
                     child = ps[i_]
                     i_ -= 1
                 par = ps[i_] if i_ >= 0 else None
-                ok_use = par is not None and par["k"] == "MethodCall" and par.get("recv") is child and par["name"] in PROBES and "HashMap" in (par.get("callee") or "")
+                ok_use = par is not None and par["k"] == "MethodCall" and par.get("recv") is child and par["name"] in PROBES and ("HashMap" in (par.get("callee") or "") or "BTreeMap" in (par.get("callee") or ""))
                 if not ok_use:
                     bad_uses.append("%s: %s" % (name, (par or {}).get("name") or (par or {}).get("k")))
     rep.ob("C20.iter", "%s|entries-readers" % cfg, not bad_uses and n_uses >= 4, "the unordered map is never enumerated: every use of `entries` is the receiver of a by-key probe / update or an emptiness test", expected=sorted(PROBES), found=bad_uses or "%d uses, all by-key" % n_uses)
@@ -203,4 +214,4 @@ def iteration(cfg, crate, rep):
     rep.ob("C20.iter", "%s|no-map-enumeration" % cfg, not bad, "`entries` is never iterated", found=bad)
     # key type derives Hash + Eq
     derived = {im.get("trait") for im in crate.impls if im.get("self_adt") == "certificate::DnType" and im.get("derived")}
-    rep.ob("C20.iter", "%s|key-traits" % cfg, {"std::hash::Hash", "std::cmp::Eq", "std::cmp::PartialEq"} <= derived, "the key type derives Hash, PartialEq and Eq (consistent by construction)", found=sorted(x for x in derived if x))
+    rep.ob("C20.iter", "%s|key-traits" % cfg, ({"std::cmp::Ord", "std::cmp::PartialOrd", "std::cmp::Eq", "std::cmp::PartialEq"} if "BTreeMap" in map_type(crate) else {"std::hash::Hash", "std::cmp::Eq", "std::cmp::PartialEq"}) <= derived, "the key type derives the traits its map looks keys up with (Hash + Eq, or Ord + Eq for a BTreeMap): consistent by construction", found=sorted(x for x in derived if x))
